@@ -132,14 +132,14 @@ def run(ctx):
         # ------------------------------------------------------------------ 2. TLC cases on the real TiledWriter
         t1 = time.time()
         nontriv = [c for c in cases if any(h["op"] == "stream_datum" for h in c["hist"]) and any(h["op"] == "event" for h in c["hist"])]
-        pick = rng.sample(nontriv, min(len(nontriv), 18 if q else 400)) + rng.sample(cases, min(len(cases), 4 if q else 40))
+        pick = rng.sample(nontriv, min(len(nontriv), 18 if q else 350)) + rng.sample(cases, min(len(cases), 4 if q else 40))
         for c in pick:
             ops = [{"op": h["op"], "d": h["d"], "r": h["r"], "a": h["a"], "b": h["b"]} for h in c["hist"] if h["op"] != "stop"]
             execute(ops, list(c["keyof"]), c["batch"], "tlc-case", exp=c)
         ctx.note(f"phase replay of {len(pick)} of {len(cases)} TLC cases: {time.time() - t1:.1f}s")
         # ------------------------------------------------------------------ 3. random runs
         t1 = time.time()
-        nrand = 20 if q else 260
+        nrand = 20 if q else 210
         for i in range(nrand):
             ops, keyof = th.random_batch_ops(rng, max_ev=6 if q else 9, max_sd=5 if q else 7)
             execute(ops, keyof, rng.choice([0, 1, 2, 2, 3, 3, 5]), f"random:{i}", pages=rng.random() < 0.5)
